@@ -9,7 +9,7 @@ RULE = ("histories of kernel events (spawn/exit->zombie/reap/PID reuse by a live
         "calls over PIDs {0,1,2,3,7,2^31-1} (Process() also on -1,-7,5,2^31,2^64), start ticks from 21 values (bases 0..2^40, 10^12, each +0/+1/+2) with PID reuse at adjacent ticks (p=0.6), process names with 0-3 blanks/parentheses/15 bytes, thread-count changes, incl. adjacent "
         "ticks, drawn from a weighted grammar with motifs 'process ends, 0-2 queries (is_running/ppid/process_iter/"
         "create_time/boot_time/==/hash), PID reused or not, then a signal or setter on the old object' and 'clock step + "
-        "boot_time() + second object'; 150 live cases per quick run: 3-8 setter calls through the real C extension on a throw-away child, CPU numbers/nice/ionice/rlimit values at the 2^31, 2^32, 2^40, 2^63, 2^64 boundaries (k*2^32 + eligible CPU etc.), kernel-side mask/nice/ioprio/limits read back; PID 7 is the PID psutil was imported under (os.getpid() patched during import: forked-child situation); wait() caching the exit code then PID reuse; process_iter() generators suspended between PIDs while other events happen; two-step calls whose window holds kernel events applied by the fake kernel at the moment psutil issues its system call (reap+respawn = the inherent TOCTOU, exit, reap, thread, clock, nothing); psutil.Popen objects whose child is already gone; guarded calls inside (nested) oneshot() blocks before/after exit+reuse, as_dict(); 30% of objects are psutil.Popen over a stub subprocess.Popen; every signal method and setter with valid and invalid arguments. Class = most specific "
+        "boot_time() + second object'; 18% of all cases run in workers started with python -O (3/4) or -OO (asserts stripped) plus a systematic recycled-PID block (every signal method and setter, Process and Popen, live and zombie reuse, no is_running() since; normal and -O/-OO); 150 live cases per quick run: 3-8 setter calls through the real C extension on a throw-away child, CPU numbers/nice/ionice/rlimit values at the 2^31, 2^32, 2^40, 2^63, 2^64 boundaries (k*2^32 + eligible CPU etc.), kernel-side mask/nice/ioprio/limits read back; PID 7 is the PID psutil was imported under (os.getpid() patched during import: forked-child situation); wait() caching the exit code then PID reuse; process_iter() generators suspended between PIDs while other events happen; two-step calls whose window holds kernel events applied by the fake kernel at the moment psutil issues its system call (reap+respawn = the inherent TOCTOU, exit, reap, thread, clock, nothing); psutil.Popen objects whose child is already gone; guarded calls inside (nested) oneshot() blocks before/after exit+reuse, as_dict(); 30% of objects are psutil.Popen over a stub subprocess.Popen; every signal method and setter with valid and invalid arguments. Class = most specific "
         "feature reached (set-reused-after-gone, set-reused, pid0, set-gone, set-zombie, ...). Non-trivial = some signal/"
         "setter/query on an object was executed; distinct = distinct canonical history.")
 TRUSTED = PC.TRUSTED
@@ -17,7 +17,7 @@ ASSUMPTIONS = PC.ASSUMPTIONS
 EXHAUSTIVE = {"thorough": "all well-formed histories of length 6 over {spawn 5@100, spawn 5@900, exit 5, reap 5, Process(5), "
                           "is_running(o0), kill(o0), nice(o0,1)} that start with spawn 5@100; Process(5)"}
 SPEC_KINDS = ("set", "new", "race")
-N = {"quick": 750, "thorough": 12000, "search": 2500}
+N = {"quick": 650, "thorough": 12000, "search": 2500}
 
 
 def _alphabet(sh):
@@ -32,11 +32,107 @@ def _alphabet(sh):
     return evs
 
 
+# functions on the path of the guard: every `assert` in them is dumped into coq/Gen/C01_Tables.v on every run
+GUARD_FUNCTIONS = {
+    "psutil/__init__.py": ["Process.__init__", "Process._init", "Process._get_ident", "Process.__eq__", "Process.__ne__",
+                           "Process.__hash__", "Process._raise_if_pid_reused", "Process.is_running", "Process.ppid",
+                           "Process.nice", "Process.ionice", "Process.rlimit", "Process.cpu_affinity", "Process._send_signal",
+                           "Process.send_signal", "Process.suspend", "Process.resume", "Process.terminate", "Process.kill",
+                           "Process.wait", "Process.oneshot", "Process.as_dict", "Process.create_time", "Popen.__init__",
+                           "Popen.__getattribute__", "Popen.wait", "process_iter", "wait_procs", "pids", "boot_time"],
+    "psutil/_psposix.py": ["pid_exists", "wait_pid"],
+    "psutil/_pslinux.py": ["wrap_exceptions", "Process.__init__", "Process._is_zombie", "Process._raise_if_zombie",
+                           "Process._parse_stat_file", "Process._read_status_file", "Process.create_time", "Process.ppid",
+                           "Process.nice_set", "Process.ionice_set", "Process.rlimit", "Process.cpu_affinity_set",
+                           "Process._get_eligible_cpus", "Process.wait", "Process.oneshot_enter", "Process.oneshot_exit",
+                           "pids", "boot_time"],
+    "psutil/_common.py": ["memoize_when_activated", "open_binary", "cat", "bcat"],
+}
+
+
+def gen_tables(impl_dir, out_dir):
+    """coq/Gen/C01_Tables.v: every assert statement in the functions of the guard path of the tree under test (ast), with
+    a flag: does evaluating it possibly DO something (a Call, :=, await, yield anywhere in the statement)?  Under
+    python -O these statements vanish; Properties/C01.v proves from this table that none of them does anything."""
+    import ast
+    import os
+
+    from pv import gallina as G
+    rows, scanned = [], []
+    for rel, wanted in sorted(GUARD_FUNCTIONS.items()):
+        src = open(os.path.join(impl_dir, rel)).read()
+        tree = ast.parse(src)
+        found = {}
+
+        def visit(node, prefix):
+            for ch in ast.iter_child_nodes(node):
+                if isinstance(ch, ast.ClassDef):
+                    visit(ch, prefix + ch.name + ".")
+                elif isinstance(ch, (ast.FunctionDef, ast.AsyncFunctionDef)):
+                    found.setdefault(prefix + ch.name, []).append(ch)
+                elif isinstance(ch, (ast.If, ast.Try, ast.With)):
+                    visit(ch, prefix)        # definitions under "if POSIX:" etc.
+
+        visit(tree, "")
+        for q in wanted:
+            if q not in found:
+                raise RuntimeError("C01 assert table: function %s not found in %s (renamed? update GUARD_FUNCTIONS)" % (q, rel))
+            for fn in found[q]:
+                scanned.append((rel, q))
+                for node in ast.walk(fn):       # nested functions (decorator wrappers) included
+                    if isinstance(node, ast.Assert):
+                        effect = any(isinstance(x, (ast.Call, ast.NamedExpr, ast.Await, ast.Yield, ast.YieldFrom))
+                                     for x in ast.walk(node))
+                        rows.append((rel, q, " ".join(ast.get_source_segment(src, node).split()), effect))
+
+    def row(r):
+        return "(%s, %s, %s, %s) (* %s %s: %s *)" % (G.by(r[0]), G.by(r[1]), G.by(r[2]), G.bo(r[3]), r[0], r[1],
+                                                     r[2].replace("*)", "* )"))
+    txt = ("(* GENERATED by props/C01.py (ast) from the tree under test. Do not edit. *)\n"
+           "From PV Require Import Base.Prelude.\n\n"
+           "(* every assert statement in the functions on the path of the PID-reuse guard:\n"
+           "   (file, function, statement, evaluating it may have an effect: Call / := / await / yield inside) *)\n"
+           "Definition guard_asserts : list (list Z * list Z * list Z * bool) :=\n  [%s].\n\n"
+           "(* the functions that were scanned (nested definitions included) *)\n"
+           "Definition guard_functions : list (list Z * list Z) :=\n  [%s].\n"
+           % (";\n   ".join(row(r) for r in rows),
+              ";\n   ".join("(%s, %s) (* %s %s *)" % (G.by(a), G.by(b), a, b) for a, b in scanned)))
+    os.makedirs(out_dir, exist_ok=True)
+    path = os.path.join(out_dir, "C01_Tables.v")
+    old = open(path).read() if os.path.exists(path) else None
+    if old != txt:
+        with open(path + ".tmp", "w") as f:
+            f.write(txt)
+        os.replace(path + ".tmp", path)
+    return path
+
+
+def _recycled_block():
+    """the systematic block: PID recycled (by a live process / by a zombie), NO is_running() since, then each guarded call"""
+    out = []
+    setters = [["kill"], ["terminate"], ["suspend"], ["resume"], ["signal", 15], ["nice", 1], ["ionice", 2, 4], ["rlimit", 7, [1, 2]],
+               ["affinity", [0]]]
+    for s in setters:
+        for ctor in ("new", "popen"):
+            for zombie in (False, True):
+                evs = [["spawn", 5, 100, 1, "a b"], [ctor, 5]] + ([["exit", 5]] if zombie else []) + \
+                      [["reap", 5], ["spawn", 5, 101, 1, "c"]] + ([["exit", 5]] if zombie else []) + [["set", 0, s], ["race", 0, s, []]]
+                out.append({"kind": "hist", "cls": "recycled-block", "evs": evs})
+    return out
+
+
 def gen_cases(rng, tier):
+    from pv import core
     cases = []
     for _ in range(N[tier]):
         cases.append(PC.gen_history(rng, rng.choice([6, 12, 20, 30, 45]), "c01"))
     cases += PC.gen_live(rng, {"quick": 150, "thorough": 3000, "search": 400}[tier])
+    # interpreter modes: the guard must not live in an assert -- python -O / -OO strip them
+    core.assign_pyflags(cases, rng, modes=(("-O",), ("-O",), ("-O",), ("-OO",)), frac=0.18)
+    block = _recycled_block()
+    for i, c in enumerate(block):
+        cases.append(dict(c))
+        cases.append(dict(c, pyflags=["-OO"] if i % 9 == 0 else ["-O"]))
     if tier == "thorough":
         pre = [["spawn", 5, 100, 1], ["new", 5]]
         for tail in _enum_after(pre, 4):
@@ -72,7 +168,7 @@ MANIFEST = {
             "NoSuchProcess and attempts no system call; with no owner it raises NoSuchProcess (ValueError for invalid arguments) and "
             "nothing is delivered; no os.kill is ever attempted with pid <= 0, Process(negative) is a ValueError, a signal on a PID-0 "
             "object is refused; each call attempts at most one system call, exactly (pid of the object, requested signal/value), and "
-            "a delivered one is received by the very process the object was created for. Through the real C extension (Proc/Live.v, C conversions "
+            "a delivered one is received by the very process the object was created for. The assert statements of the guard path are dumped (ast) from the tree under test on every run and proved call-free, and the model with the asserts stripped is proved equal, so the theorems hold under python -O too. Through the real C extension (Proc/Live.v, C conversions "
             "with explicit widths): cpu_affinity([n]) sets exactly {n} or raises ValueError with the mask unchanged for EVERY integer n (no "
             "wrap-around at 2^31/2^32/2^40/2^63); nice/ionice/rlimit set exactly or raise with nothing changed. The call is also modelled in two steps "
             "(identity probe, kernel events in the window, system call): with no event in the window it equals the atomic call; with a "
